@@ -1,10 +1,11 @@
 (* C08 - Cached cluster metadata mirrors the broker's answer and self-heals when stale.
+   (client.py line numbers as of /repo commit b8d6557.)
    Theorem statements only; proofs live in Proofs/ClientMeta*.v, Proofs/ClientRouteWF.v.
-   Model: Model/ClientMeta.v (the cache, afkak/client.py:274-326, 529-569, 862-895, 897-917, 956-987) and
-   Model/ClientRoute.v (resolution and sending, client.py:468-527, 989-1020, 1100-1362).
+   Model: Model/ClientMeta.v (the cache, afkak/client.py:274-326, 529-569, 869-902, 904-924, 963-994) and
+   Model/ClientRoute.v (resolution and sending, client.py:468-527, 996-1029, 1109-1371).
    [WF] is the invariant of reachable states (C08_reachable_wf); [wf] is its boolean form. *)
 From AV Require Import Base.Util Model.ClientMeta Model.ClientRoute Proofs.ClientMetaDict Proofs.ClientMetaFacts
-  Proofs.ClientRouteWF Proofs.ClientMetaC08.
+  Proofs.ClientRouteWF Proofs.ClientRouteFacts Proofs.ClientMetaC08 Proofs.ClientMetaRecovery.
 
 (* Every state reachable by ANY history of client operations (metadata / coordinator loads with any try
    script and any response bytes, sends with any outcomes, resets, connection losses, close, host updates)
@@ -73,18 +74,21 @@ Print Assumptions C08_full_refresh_closes.
 
 (* Invalidation.  What a public send_*_request leaves behind, by kind of result:
    - delivered responses (fail_on_error=False): every NotLeader(6) / UnknownTopicOrPartition(3) answer's
-     topic has no cached leader for any partition; every coordinator error (14,15,16) cleared the group;
+     topic has no cached leader for any partition and has_metadata_for_topic is False (what Producer and
+     Consumer poll); every coordinator error (14,15,16) cleared the group;
    - raised error e: it is the error of one of the responses, and the same holds for that response;
    - FailedPayloadsError: NOTHING is cached any more (no leader, no coordinator, no topic). *)
 Theorem C08_invalidate : forall st group fail expect ps loads outs r st' res,
   WF st -> send_public st group fail expect ps loads outs = (r, st', res) ->
   match res with
   | POk out =>
-      (forall x, In x out -> is_topic_err (r_err x) = true -> forall p, leader_of st' (r_topic x, p) = None) /\
+      (forall x, In x out -> is_topic_err (r_err x) = true ->
+         (forall p, leader_of st' (r_topic x, p) = None) /\ has_metadata_for_topic st' (r_topic x) = false) /\
       (forall x g, In x out -> is_group_err (r_err x) = true -> group = Some g -> zget g (s_g2c st') = None)
   | PRaise e =>
       fail = true /\ e <> 0 /\ exists rs x, a_res r = SOk rs /\ In x rs /\ r_err x = e /\
-        (is_topic_err e = true -> forall p, leader_of st' (r_topic x, p) = None) /\
+        (is_topic_err e = true ->
+           (forall p, leader_of st' (r_topic x, p) = None) /\ has_metadata_for_topic st' (r_topic x) = false) /\
         (forall g, is_group_err e = true -> group = Some g -> zget g (s_g2c st') = None)
   | PFailed _ _ =>
       (forall k, leader_of st' k = None) /\ (forall g, zget g (s_g2c st') = None) /\
@@ -95,8 +99,41 @@ Theorem C08_invalidate : forall st group fail expect ps loads outs r st' res,
 Proof. exact send_public_invalidates. Qed.
 Print Assumptions C08_invalidate.
 
-(* ... so that the next resolution of such a partition issues a metadata request for its topic (the
-   load event carries the tries of that request), while a cached leader is used without any request. *)
+(* The same for _send_request_to_coordinator (JoinGroup, SyncGroup, Heartbeat, LeaveGroup): a coordinator
+   error in the answer clears the cached coordinator of the group, a topic error the answer's topic. *)
+Theorem C08_invalidate_coordinator_request : forall st g p loads o r st' e,
+  WF st -> send_coord st g p loads o = (r, st', PRaise e) ->
+  e <> 0 /\ (is_group_err e = true -> zget g (s_g2c st') = None) /\
+  (is_topic_err e = true -> exists x, a_res r = SOk [x] /\ r_err x = e /\
+     (forall q, leader_of st' (r_topic x, q) = None) /\ has_metadata_for_topic st' (r_topic x) = false).
+Proof. exact send_coord_invalidates. Qed.
+Print Assumptions C08_invalidate_coordinator_request.
+
+(* DOCUMENTED DEVIATION from the clause "a failed send invalidates the cached routing".  It holds for
+   _send_broker_aware_request (C08_invalidate, PFailed).  It does NOT hold for _send_request_to_coordinator:
+   when the request to the coordinator fails (time-out, connection never established) the failure simply
+   propagates and the coordinator the failed request was sent to STAYS cached - this theorem states the
+   model (and the code) as they are.  At client level nothing re-resolves the coordinator after such a
+   failure; the caller compensates: afkak/_group.py rejoin_after_error calls reset_consumer_group_metadata on
+   RequestTimedOutError before rejoining (modelled and proved on the group side, C17 / Model/Group.v). *)
+Theorem C08_coordinator_failed_send_keeps_cache : forall st g p loads r st' res q,
+  send_coord st g p loads RFail = (r, st', res) -> In q (a_reqs r) ->
+  res = PErr ETimedOut /\ exists a, zget g (s_g2c st') = Some (rq_node q, a).
+Proof. exact send_coord_failed_keeps. Qed.
+Print Assumptions C08_coordinator_failed_send_keeps_cache.
+
+(* The broker table only grows: a node the response does not name keeps its address (client.py:974). *)
+Theorem C08_merge_brokers_frame : forall st nr full st' gone ok n,
+  NoDup (map fst (n_brokers nr)) -> merge st nr full = (st', gone, ok) -> ~ In n (map fst (n_brokers nr)) ->
+  zget n (s_brokers st') = zget n (s_brokers st).
+Proof. exact merge_brokers_frame. Qed.
+Print Assumptions C08_merge_brokers_frame.
+
+(* ... so that the next resolution of such a partition performs a metadata lookup (a partial refresh: full =
+   false; the load event carries the tries of that request), while a cached leader is used without any request.
+   These two are one-step unfoldings of resolve_leader, kept for the record; that the request on the wire asks
+   for exactly the payload's topic is NOT a statement about the model (the asked topic is not part of it): it is
+   checked on the implementation by the monitor only (C08_reresolve monitor, the topic parsed from the wire). *)
 Theorem C08_reresolve : forall st p u r loads st1 log gone res,
   (leader_of st (p_key p) = None \/ leader_of st (p_key p) = Some None) ->
   load_metadata st false u r = (st1, log, gone, res) ->
@@ -132,6 +169,42 @@ Theorem C08_recovery_partial : forall st p u r loads st1 log err parts l,
     zget l (s_brokers st2) = Some a /\ WF st2.
 Proof. exact recovery_step. Qed.
 Print Assumptions C08_recovery_partial.
+
+(* Recovery for whole calls (still PARTIAL with respect to "within the retry budget of Producer/Consumer").
+   Let [truth] name the leader of every partition once the cluster has settled, and let every metadata lookup be
+   answered truthfully ([load_truthful]: leaders are brokers of the response and equal [truth]).
+   [stale truth st t]: some cached leader of topic t differs from the truth.  [fresh truth st]: none does.
+   (1) From a reachable state without stale leaders EVERY payload of a call - any payload list, any number of
+       nested lookups - is routed to its true leader.
+   (2) No public send ever makes a topic stale that was not stale before.
+   (3) By C08_invalidate the topic of a NotLeader/UnknownTopic answer is not stale afterwards
+       (fail_on_error=False: every such topic of the call at once; True: the first one).
+   With brokers that answer NotLeader only to requests for partitions they do not lead, an attempt can only fail
+   because of a stale topic; each failed attempt removes at least one stale topic and adds none, and with none
+   left (1) applies: the number of failed attempts after the last fault is at most the number of DISTINCT STALE
+   TOPICS (one, if the caller delivers errors instead of raising).  Premise named, not proved: a broker that was
+   re-addressed no longer holds the old connection (C08_live_connection_kept shows a surviving connection keeps
+   being used).  Not covered: the retry loops and budgets of Producer/Consumer (C01/C02/C09 own them). *)
+Theorem C08_recovery_routes_all_partial : forall truth st expect ps loads outs rs failed,
+  WF st -> fresh truth st -> Forall (load_truthful truth) loads ->
+  fanout (a_res (aware st None expect ps loads outs)) = Some (rs, failed) ->
+  Forall (fun x => rs_node x = truth (p_key (rs_payload x))) (a_resolved (aware st None expect ps loads outs)).
+Proof. exact fresh_routing. Qed.
+Print Assumptions C08_recovery_routes_all_partial.
+
+Theorem C08_stale_never_grows : forall truth st group fail expect ps loads outs r st' res t,
+  WF st -> Forall (load_truthful truth) loads ->
+  send_public st group fail expect ps loads outs = (r, st', res) ->
+  (exists p n a, leader_of st' (t, p) = Some (Some (n, a)) /\ n <> truth (t, p)) ->
+  (exists p n a, leader_of st (t, p) = Some (Some (n, a)) /\ n <> truth (t, p)).
+Proof. exact stale_never_grows. Qed.
+Print Assumptions C08_stale_never_grows.
+
+Theorem C08_fresh_iff_no_stale : forall truth st,
+  (forall k n a, leader_of st k = Some (Some (n, a)) -> n = truth k) <->
+  (forall t, ~ exists p n a, leader_of st (t, p) = Some (Some (n, a)) /\ n <> truth (t, p)).
+Proof. exact fresh_iff_no_stale. Qed.
+Print Assumptions C08_fresh_iff_no_stale.
 
 (* Addresses: a broker client without a live connection connects to the address the cache has for its
    node (by C08_merge_exact the one the latest response naming the node gave); a client with a live
@@ -193,4 +266,28 @@ Proof.
   eapply (R_meta (init_state [(7, 9092)]) true
             {| u_shuf := []; u_kouts := []; u_bshuf := [(7, 9092)]; u_bouts := [BResp] |} ex_r1);
     [apply R_init|vm_compute; reflexivity].
+Qed.
+
+(* two stale topics, truthful lookups: the first failed attempt (fail_on_error=False, NotLeader for both) clears
+   both topics, the second attempt reloads both and routes every payload to the true leaders *)
+Definition ex_truth (k : tpk) : Z := if fst k =? 0 then 2 else 1.
+Definition ex_t0 : rawresp := {| rr_brokers := [(1, (101, 9092)); (2, (202, 9093))];
+                                 rr_topics := [{| rt_err := 0; rt_id := 0; rt_parts := [(0, 0, 2); (0, 1, 2)] |}] |}.
+Definition ex_t1 : rawresp := {| rr_brokers := [(1, (101, 9092)); (2, (202, 9093))];
+                                 rr_topics := [{| rt_err := 0; rt_id := 1; rt_parts := [(0, 0, 1)] |}] |}.
+Example ex_two_stale_topics_one_failed_attempt :
+  let ps := [{| p_topic := 1; p_part := 0; p_tag := 1 |}; {| p_topic := 0; p_part := 0; p_tag := 2 |}] in
+  let nl t p g := {| r_topic := t; r_part := p; r_err := 6; r_tag := g |} in
+  let ok t p g := {| r_topic := t; r_part := p; r_err := 0; r_tag := g |} in
+  let u := {| u_shuf := [1; 2]; u_kouts := [KResp]; u_bshuf := []; u_bouts := [] |} in
+  let '(_, s1, res1) := send_public ex_s1 None false true ps [] [ROk [nl 1 0 1]; ROk [nl 0 0 2]] in
+  res1 = POk [nl 1 0 1; nl 0 0 2] /\ leader_of s1 (1, 0) = None /\ leader_of s1 (0, 0) = None /\
+  Forall (load_truthful ex_truth) [LoadMeta u ex_t1; LoadMeta u ex_t0] /\
+  let '(r2, s2, res2) := send_public s1 None false true ps [LoadMeta u ex_t1; LoadMeta u ex_t0] [ROk [ok 1 0 1]; ROk [ok 0 0 2]] in
+  res2 = POk [ok 1 0 1; ok 0 0 2] /\ map rs_node (a_resolved r2) = [1; 2].
+Proof.
+  vm_compute. split; [reflexivity|]. split; [reflexivity|]. split; [reflexivity|]. split.
+  - repeat constructor; intros t err parts p l Ht Hp Hl; simpl in Ht; destruct Ht as [Ht|[]]; inversion Ht; subst;
+      simpl in Hp; intuition (try congruence); inversion H; subst; reflexivity.
+  - split; reflexivity.
 Qed.
